@@ -78,6 +78,10 @@ class MetaType(type):
         Returns:
             The parsed value of this type.
         """
+        if isinstance(data, memoryview) and not data.c_contiguous:
+            # Its bytes, in order (a stream can't be made of a view with gaps)
+            data = data.tobytes()
+
         return cls._read(BytesIO(data))
 
     def read(cls, obj: BinaryIO | bytes | memoryview | bytearray) -> Self:  # type: ignore
